@@ -566,6 +566,8 @@ class Data(object):
                             x0 = self.variable.x0
                             x1 = self.variable.x1
                             if x0 is not None or x1 is not None:
+                                if input.obs is None:
+                                    verif.util.error("PIT values of %s cannot be randomized at the discrete mass of the variable: the file has no observations" % input.fullname)
                                 temp = verif.field.Pit.randomize(input.obs, temp, x0, x1)
 
                         elif isinstance(field, verif.field.Ensemble):
